@@ -152,7 +152,11 @@ def size_sweep(tier, seed=0):
     clean = srcexec.load(F, "_clean_new_division_boundaries")
     nspl = srcexec.load(F, "RepartitionSize._nsplits")
     pbf = srcexec.load(F, "RepartitionSize._partition_boundaries", {"np": np, "pd": pd, "iter_chunks": iter_chunks, "_clean_new_division_boundaries": clean})
-    layer = srcexec.load(F, "RepartitionSize._layer", {"np": np, "pd": pd, "tokenize": lambda *a: "tok", "split_evenly": "split_evenly", "getitem": "getitem",
+    def _tok(*a):
+        # a stand-in for dask.tokenize that still depends on every argument (names derived from it must tell apart what they name)
+        return "tok(" + ",".join(repr(list(x)) if hasattr(x, "tolist") else (x._name if hasattr(x, "_name") else repr(x)) for x in a) + ")"
+
+    layer = srcexec.load(F, "RepartitionSize._layer", {"np": np, "pd": pd, "tokenize": _tok, "split_evenly": "split_evenly", "getitem": "getitem",
                                                        "methods": NS(concat="concat"), "Any": object})
     rnd = random.Random(seed)
     vecs = []
@@ -163,6 +167,7 @@ def size_sweep(tier, seed=0):
         vecs.append(tuple(rnd.choice((0, 0, 1, 7, 10, 19, 20, 33, 64)) for _ in range(rnd.randrange(1, 9))))
     fails, cases = [], 0
     for vec in vecs:
+        graphs_of_vec = {}
         for size in (10, 7, 100):
             cases += 1
             args = {"mem_usages": list(vec), "partition_size": size}
@@ -193,6 +198,7 @@ def size_sweep(tier, seed=0):
                         return ev(d[t])
                     raise ValueError(f"the graph refers to {t!r}, which it does not define")
 
+                graphs_of_vec[size] = d
                 outs = sorted(k for k in d if k[0] == "out")
                 got = []
                 for k in outs:
@@ -208,6 +214,16 @@ def size_sweep(tier, seed=0):
             if msg:
                 fails.append(rtc.Failure("RepartitionSize._layer", args, "ensures", "C44-rows-and-order", msg))
                 break
+        # two repartitions of the same frame to different sizes in one graph (dask.compute(a, b), concat): the intermediate
+        # keys of the two layers must not name different things (the output keys differ by the expression name)
+        if not fails:
+            for s1, s2 in itertools.combinations(sorted(graphs_of_vec), 2):
+                d1, d2 = graphs_of_vec[s1], graphs_of_vec[s2]
+                clash = [k for k in d1.keys() & d2.keys() if k[0] != "out" and d1[k] != d2[k]]
+                if clash:
+                    fails.append(rtc.Failure("RepartitionSize._layer", {"mem_usages": list(vec), "partition_size": [s1, s2]}, "ensures", "C44-rows-and-order",
+                                             f"repartition(partition_size={s1}) and (partition_size={s2}) of the same frame both define the key {clash[0]!r}, with different tasks: merged into one graph one of them loses or mis-splits rows"))
+                    break
         if fails:
             break
     return _rep("RepartitionSize._nsplits/_partition_boundaries/_layer (extracted source, NumPy/pandas; bounded only; graph interpreted on a row model)",
